@@ -170,6 +170,33 @@ def d1b(db, rep):
                       line=lp.line)
     if found < 2:
         raise AnalysisBroken("expected >=2 x86 encoding loops in orcx86insn.c, found %d" % found)
+    # word emitters of back ends for which a legal program is known to exceed the buffer (mips: replay/c05_mips_codebuf.c; the
+    # arm/neon and powerpc emitters have the same shape but no program reaching 64 KiB is known - they are not judged)
+    bufsize = db.macro_int("ORC_COMPILER_CODE_BUFFER_SIZE")
+    nw = 0
+    for tub, fn in (("orcmips", "orc_mips_emit"),):
+        g = db.func(fn, tub)
+        rep.saw(g)
+        stores = [n for n in g.walk() if n.k == "BinaryOperator" and n.op == "=" and "codeptr" in unparse(n.c[0]) and
+                  strip_casts(n.c[0]) is not None and strip_casts(n.c[0]).k in ("ArraySubscriptExpr", "UnaryOperator")]
+        if not stores:
+            raise AnalysisBroken("%s: no store through compiler->codeptr found" % fn)
+        gf = Facts(g)
+        for st in stores[:1]:
+            nw += 1
+            okb = False
+            for c_ in gf.conds(st):
+                if c_[0] == "switch":
+                    continue
+                cn, pol = c_
+                if cn.k == "BinaryOperator" and cn.op in ("<", "<=", ">", ">=") and "codeptr" in unparse(cn):
+                    k = strip_casts(cn.c[1]).v if strip_casts(cn.c[1]).v is not None else strip_casts(cn.c[0]).v
+                    if k is not None and k + 4 <= bufsize:
+                        okb = True
+            rep.check(okb, "D1b-CODEBUF", where(g), "word-emitter@%s" % fn,
+                      "the instruction word is stored only where codeptr - code is known to leave room for it",
+                      "%s stores an instruction word through compiler->codeptr without comparing the fill level with the %d-byte code buffer: a long "
+                      "(legal) program overflows the heap block" % (fn, bufsize), line=st.line)
     # the buffer really has the size the guard assumes
     cp = db.func("orc_compiler_compile_program", "orccompiler")
     size = None
@@ -185,6 +212,13 @@ def d1b(db, rep):
     rep.check(size is not None and (want is None or size == want) and size >= 4096, "D1b-CODEBUF", where(cp), "buffer-size",
               "compiler->code allocated with %s bytes (guard constant %s)" % (size, want),
               "compiler->code allocation size %s does not match the guard constant %s" % (size, want))
+
+
+def fcx_conds(f, n):
+    from flow import Facts as _F
+    if not hasattr(f, "_fcx"):
+        f._fcx = _F(f)
+    return f._fcx.conds(n)
 
 
 def d2(db, rep):
@@ -321,3 +355,43 @@ def d2(db, rep):
                       "early return hands back a non-success constant", "early return of ORC_COMPILE_RESULT_OK before compiling", line=r.line)
         else:
             rep.ok("D2g-RETURNS", w, "return %s" % unparse(e), "success exit returns the compiler's result")
+    # (j) "any other [non-fatal, non-successful] result leaves the program runnable by emulation": the emulator needs the code object.
+    # Every jump to the error exit that can happen before program->orccode is created must end in a FATAL result: the error exit
+    # turns the result into a fatal one where program->orccode is NULL (must-fact at the assignment), or no such early jump exists.
+    creates = [n for n in f.walk() if n.k == "BinaryOperator" and n.op == "=" and (access_path(n.c[0]) or "").endswith("program->orccode")
+               and strip_casts(n.c[1]) is not None and strip_casts(n.c[1]).k == "CallExpr"]
+    gotos = [n for n in f.walk() if n.k == "GotoStmt" and n.name == "error"]
+    if not creates or not gotos:
+        raise AnalysisBroken("orc_compiler_compile_program: creation of the code object / jumps to the error exit not found")
+    early = [g for g in gotos if not any(f.dominates(c_, g) for c_ in creates)]
+    FATAL = db.macro("ORC_COMPILE_RESULT_IS_FATAL")
+    fatal_fix = []
+    for n in f.walk():
+        if n.k == "BinaryOperator" and n.op == "=" and access_path(n.c[0]) == "result" and strip_casts(n.c[1]).v is not None and strip_casts(n.c[1]).v >= 0x200:
+            if any(c_[0] != "switch" and c_[1] is False and (access_path(strip_casts(c_[0])) or "").endswith("program->orccode") for c_ in fcx_conds(f, n)) or \
+                    any(c_[0] != "switch" and "orccode" in unparse(c_[0]) and "0" in unparse(c_[0]) for c_ in fcx_conds(f, n)):
+                fatal_fix.append(n)
+    rep.check(not early or bool(fatal_fix), "D2j-NO-CODE-IS-FATAL", w, "error-exit",
+              "%d jumps to the error exit precede the creation of the code object; the exit makes the result fatal where program->orccode is NULL" % len(early),
+              "orc_compiler_compile_program can reach its error exit before program->orccode exists (e.g. line %s) and still return a non-fatal result: the "
+              "caller is told the program falls back to emulation, but orc_executor_emulate has nothing to run and aborts" % (early[0].line if early else "?"),
+              line=early[0].line if early else None)
+    # (i) "a fatal result leaves no executable code": whatever an earlier compile installed is released, and code_exec reset to the
+    # fallback, before ANY return - also the early refusal of a program that carries an error
+    drops = [n for n in f.walk() if n.k == "BinaryOperator" and n.op == "=" and (access_path(n.c[0]) or "").endswith("program->orccode") and strip_casts(n.c[1]).v == 0]
+    resets = [n for n in f.walk() if n.k == "BinaryOperator" and n.op == "=" and (access_path(n.c[0]) or "").endswith("program->code_exec")]
+    if not drops or not resets:
+        raise AnalysisBroken("orc_compiler_compile_program: release of the old code object / reset of code_exec not found")
+    fcx = Facts(f)
+    for r in [n for n in f.walk() if n.k == "ReturnStmt"]:
+        # the release is conditional on program->orccode being set: a return is fine if the store dominates it or the pointer is
+        # known NULL there; code_exec must have been reassigned on every path
+        from flow import path_to
+        wit = path_to(f, r, lambda e: e.k == "BinaryOperator" and e.op == "=" and (access_path(e.c[0]) or "").endswith("program->code_exec"))
+        wit2 = path_to(f, r, lambda e: (e.k == "CallExpr" and e.name == "orc_code_free") or
+                       (e.k == "BinaryOperator" and e.op == "=" and (access_path(e.c[0]) or "").endswith("program->orccode")),
+                       lambda b, idx: not (f.blocks[b].cond is not None and (access_path(strip_casts(f.blocks[b].cond)) or "").endswith("program->orccode") and f.edge_kind(b, idx) is False))
+        rep.check(wit is None and wit2 is None, "D2i-OLD-CODE-DROPPED", w, "return@%s" % r.line,
+                  "the previous code object is released and code_exec reset on every path to this return",
+                  "orc_compiler_compile_program can return (line %s) without having released the code object of an earlier compile / reset "
+                  "program->code_exec: a refused or failed recompile leaves the old machine code installed although the result says otherwise" % r.line, line=r.line)
